@@ -101,7 +101,12 @@ CLAIMS["C20"] = {
             "exactly the old ones with those of epoch <= cut turned into tombstones, inside an open transaction as outside "
             "(tombstone_exact, tombstone_keeps_later), every other key reads as before (tombstone_frame), the transaction flag is "
             "untouched (tombstone_active); tied to the Rust by the l1.store stream (tombstones outside and inside transactions, "
-            "oracle on the manager's view before/after). What a "
+            "oracle on the manager's view before/after). THE HISTORY CLAUSE (Thm/C20c): in every state reached by publishes, after "
+            "tombstone(u, cut) the history request still succeeds with the unchanged epoch hash; the verifier that allows missing "
+            "values accepts it with the same versions and epochs, tombstoned values empty and later values intact "
+            "(tombstone_history_allow); the strict verifier accepts iff no entry of the requested range is tombstoned "
+            "(tombstone_history_default_ok / tombstone_history_default_rejects); other labels' histories are the identical "
+            "answer (tombstone_other_history); repeated tombstoning is tombstoning up to the larger cut (tombstone_twice). What a "
             "history request shows for tombstoned entries is decided by the correspondence run with oracles spec.root / spec.lookup "
             "/ spec.history.tomb after every tombstone step and after further publishes.",
     "note": BASE_NOTE,
